@@ -361,14 +361,30 @@ Theorem c04_retain_refines : forall K V (cmp : K -> K -> comparison), OrderLaws 
   TreeInv cmp bt' /\ abs_tree bt' = SortedMap.retain_in cmp lo hi p (abs_tree bt).
 Proof. exact (@t_retain_refines). Qed.
 
+(* extract_if / extract_from_if (BtreeExtractIf over RangeMut, RangeMut.v) consumed from the FRONT: any number of
+   next() calls, then the iterator is dropped or closed.  The yields and the final contents are those of the
+   specification iterator; the invariant is kept.  (The back end stays parked at the upper bound.  NOT covered:
+   next_back() and mixed consumption, i.e. parking the front end, activating the back end, pending batches.) *)
+Theorem c04_extract_forward_refines : forall K V (cmp : K -> K -> comparison), OrderLaws cmp ->
+  forall (ksize : K -> N) (vsize : V -> N) (fixed_k fixed_v : bool) (page_size : N) (sep : K -> K -> K),
+  valid_sep cmp sep ->
+  forall (entry_eqb : K * V -> K * V -> bool) (bt : @btree K V) lo hi p n, TreeInv cmp bt ->
+  let '(os, x) := t_nexts cmp ksize vsize fixed_k fixed_v page_size sep entry_eqb lo hi p n (t_extract_new bt lo hi) in
+  let '(os', st) := ext_run p (repeat true n) (ext_begin cmp (abs_tree bt) lo hi) in
+  os = os' /\
+  TreeInv cmp (t_extract_close cmp ksize vsize fixed_k fixed_v page_size sep entry_eqb x) /\
+  abs_tree (t_extract_close cmp ksize vsize fixed_k fixed_v page_size sep entry_eqb x) = ext_finish st.
+Proof. exact (@t_extract_forward_refines). Qed.
+
 (* PARTIAL (explicit op coverage).  Covered constructors of ProgramX.xop:
      XBase  (every read query, insert, remove, pop_first, pop_last),
      XGuard (GReserve = insert_reserve, GGetMut = get_mut + AccessGuardMut::insert*, GEntryOrInsert, GEntryModify,
              GEntryInsert, GEntryRemove, GEntryRemoveEntry, GEntryGet = the entry API),
      XRetain, XRetainIn.
    NOT covered (no constructor): extract_if / extract_from_if.  They are modelled (Btree/RangeMut.v over the same
-   store as retain) and validated per run: the model's tree equals the real tree after every operation and its
-   yields equal the specification's (design.d/C04.md).  Full statement (not a theorem): the same with extract scripts. *)
+   store as retain); front-only consumption is proved separately (c04_extract_forward_refines); double-ended
+   consumption is validated per run: the model's tree equals the real tree after every operation and its yields
+   equal the specification's (design.d/C04.md).  Full statement (not a theorem): the same with extract scripts. *)
 Theorem c04_program_refines_partial : forall K V (cmp : K -> K -> comparison), OrderLaws cmp ->
   forall (ksize : K -> N) (vsize : V -> N) (fixed_k fixed_v : bool) (page_size : N)
          (sep : K -> K -> K) (inplace : list (K * V) -> K -> V -> bool) (blank : V -> V),
@@ -384,6 +400,15 @@ Example c04_nonvacuous_guard :
                      ex_built (GGetMut (KU64 21) [[9; 9; 9; 9; 9; 9; 9; 9; 9; 9; 9; 9; 9; 9; 9; 9; 9; 9; 9; 9; 9; 9; 9; 9; 9; 9; 9; 9; 9; 9; 9; 9; 9; 9; 9; 9; 9; 9; 9; 9]%N; [7]%N]) in
   x = OVal (Some [3; 3]%N) /\ tree_checkb key_cmp bt1 = true /\ tget key_cmp bt1 (KU64 21) = Some [7]%N /\ tlen bt1 = 20%N.
 Proof. vm_compute. repeat split; reflexivity. Qed.
+
+Example c04_nonvacuous_extract_forward :
+  let '(os, x) := t_nexts key_cmp key_size val_size true false 64%N ex_sep entry_eqb (Excluded (KU64 2)) (Included (KU64 19))
+                    (fun k v => match k with KU64 n => N.odd n | _ => false end) 5
+                    (t_extract_new ex_built (Excluded (KU64 2)) (Included (KU64 19))) in
+  let bt1 := t_extract_close key_cmp key_size val_size true false 64%N ex_sep entry_eqb x in
+  List.map (option_map fst) os = [Some (KU64 3); Some (KU64 5); Some (KU64 7); Some (KU64 9); Some (KU64 11)] /\
+  tree_checkb key_cmp bt1 = true /\ tlen bt1 = 15%N /\ tget key_cmp bt1 (KU64 7) = None /\ tget key_cmp bt1 (KU64 13) <> None.
+Proof. vm_compute. repeat split; try reflexivity. discriminate. Qed.
 
 Definition ex_pred (k : key) (v : bytes) : bool := match k with KU64 n => N.even n | _ => true end.
 Example c04_nonvacuous_retain :
